@@ -1336,3 +1336,108 @@ Lemma max_links_is_source :
   max_links = tarfs_getnode_depth /\ max_links = memfs_getnode_depth /\
   max_links = tarfs_openfile_depth /\ max_links = memfs_openfile_depth.
 Proof. repeat split; reflexivity. Qed.
+
+(* ---- inputs on which the declining model always answers --------------------
+   regular files and directories only, in the packages and in the initial tree *)
+Definition plain_node (n : node) : Prop := match n with NDir _ | NFile _ _ _ _ => True | _ => False end.
+Definition plain_fs (m : fsmap) : Prop := forall p n, fs_get m p = Some n -> plain_node n.
+Definition plain_pkgs (pkgs : list pkg) : Prop :=
+  forall h, In h (all_hdrs pkgs) -> h_kind h = KReg \/ h_kind h = KDir.
+
+Lemma fs_set_plain : forall m p n, plain_fs m -> plain_node n -> plain_fs (fs_set m p n).
+Proof.
+  intros m p n Hm Hn q x G. destruct (list_eq_dec string_dec p q) as [E|E].
+  - subst q. rewrite fs_get_set_same in G. inv_ok G. exact Hn.
+  - rewrite fs_get_set_other in G by exact E. eapply Hm. exact G.
+Qed.
+
+Lemma walk_dirs_plain : forall m ps, plain_fs m -> walk_dirs m ps <> PSymlinked.
+Proof.
+  induction ps as [|q ps IH]; intros Hm; cbn; [discriminate|].
+  destruct (fs_get m q) as [x|] eqn:G; [|discriminate].
+  pose proof (Hm _ _ G) as P. destruct x; cbn in P; try contradiction; [apply IH; exact Hm | discriminate].
+Qed.
+
+Lemma mkdir_all_plain : forall ps m perm, plain_fs m ->
+  plain_fs (fst (mkdir_all m ps perm)) /\ snd (mkdir_all m ps perm) <> Some EUnsupported.
+Proof.
+  induction ps as [|q ps IH]; intros m perm Hm; cbn; [split; [exact Hm | discriminate]|].
+  destruct (fs_get m q) as [x|] eqn:G.
+  - pose proof (Hm _ _ G) as P. destruct x; cbn in P; try contradiction; cbn.
+    + apply IH. exact Hm.
+    + split; [exact Hm | discriminate].
+  - apply IH. apply fs_set_plain; [exact Hm | exact I].
+Qed.
+
+Lemma step_plain : forall b pkgs i me s h,
+  plain_fs (s_fs s) -> (h_kind h = KReg \/ h_kind h = KDir) ->
+  match step b pkgs i me s h with
+  | IOk (s', _) => plain_fs (s_fs s')
+  | IErr e _ => e <> EUnsupported
+  end.
+Proof.
+  intros b pkgs i me s h Hm Hk. unfold step.
+  assert (Hset : plain_fs (s_fs (set_file s i h)) \/ h_kind h = KDir).
+  { destruct Hk as [K|K]; [left|right; exact K]. unfold set_file. cbn.
+    apply fs_set_plain; [exact Hm|]. unfold file_node. rewrite K. exact I. }
+  destruct Hk as [K|K]; rewrite K.
+  - destruct Hset as [Hset|Hset]; [|congruence].
+    pose proof (walk_dirs_plain (s_fs s) (prefixes (parent (h_path h))) Hm) as Hw.
+    destruct (is_lazy b).
+    + unfold step_lazy_file. rewrite K. cbn match. unfold need_dir, dir_state.
+      destruct (walk_dirs (s_fs s) (prefixes (parent (h_path h)))) eqn:W; try discriminate; [|contradiction].
+      destruct (fs_get (s_fs s) (h_path h)) as [x|] eqn:G; [|exact Hset].
+      pose proof (Hm _ _ G) as P. destruct x as [m|gs md [j|] dt| |]; cbn in P; try contradiction; try discriminate.
+      * destruct (decide_lazy (nth j pkgs no_pkg) me gs (h_sum h)); [exact Hm | exact Hset | discriminate].
+      * destruct dt; [|discriminate]. destruct (N.eqb gs (h_sum h)); [exact Hm | discriminate].
+    + unfold step_stream_reg, dir_state.
+      destruct (walk_dirs (s_fs s) (prefixes (parent (h_path h)))) eqn:W; try discriminate; [|contradiction].
+      destruct (fs_get (s_fs s) (h_path h)) as [x|] eqn:G; [|exact Hset].
+      pose proof (Hm _ _ G) as P. destruct x as [m|gs md ow dt| |]; cbn in P; try contradiction; try discriminate.
+      destruct (decide_stream _ me (N.eqb gs (h_sum h))) as [[| |]| |]; try discriminate; [exact Hm | exact Hset].
+  - unfold step_dir.
+    pose proof (mkdir_all_plain (prefixes (h_path h)) (s_fs s) (perm_of (h_mode h)) Hm) as [P1 P2].
+    destruct (mkdir_all (s_fs s) (prefixes (h_path h)) (perm_of (h_mode h))) as [m [e|]]; cbn in *.
+    + intro E. apply P2. rewrite E. reflexivity.
+    + exact P1.
+Qed.
+
+Lemma install_files_plain : forall b pkgs i me hs s acc,
+  plain_fs (s_fs s) -> (forall h, In h hs -> h_kind h = KReg \/ h_kind h = KDir) ->
+  match install_files b pkgs i me s acc hs with
+  | IOk (s', _) => plain_fs (s_fs s')
+  | IErr e _ => e <> EUnsupported
+  end.
+Proof.
+  induction hs as [|h hs IH]; intros s acc Hm Hk; cbn; [exact Hm|].
+  pose proof (step_plain b pkgs i me s h Hm (Hk h (or_introl eq_refl))) as S.
+  destruct (step b pkgs i me s h) as [[s1 app]|e s1]; [|exact S].
+  apply IH; [exact S|]. intros x Hx. apply Hk. right. exact Hx.
+Qed.
+
+Lemma install_all_plain : forall b pkgs todo i s done,
+  plain_fs (s_fs s) -> (forall me h, In me todo -> In h (p_files me) -> h_kind h = KReg \/ h_kind h = KDir) ->
+  match install_all b pkgs i s done todo with
+  | IOk (s', _) => plain_fs (s_fs s')
+  | IErr e _ => e <> EUnsupported
+  end.
+Proof.
+  induction todo as [|me todo IH]; intros i s done Hm Hk; cbn; [exact Hm|].
+  pose proof (install_files_plain b pkgs i me (p_files me) s [] Hm (fun h Hh => Hk me h (or_introl eq_refl) Hh)) as F.
+  destruct (install_files b pkgs i me s [] (p_files me)) as [[s1 files]|e s1]; [|exact F].
+  apply IH; [exact F|]. intros x h Hx Hh. apply (Hk x h); [right; exact Hx | exact Hh].
+Qed.
+
+Theorem install_plain_answers : forall b pkgs init,
+  plain_pkgs pkgs -> plain_fs init ->
+  (forall s, install b pkgs init <> RFail EUnsupported s) /\ install_l b pkgs init = install b pkgs init.
+Proof.
+  intros b pkgs init Hp Hi.
+  assert (A : forall s, install b pkgs init <> RFail EUnsupported s).
+  { intros s0 E. unfold install in E.
+    pose proof (install_all_plain b pkgs pkgs 0 {| s_fs := init; s_if := [] |} [] Hi) as P.
+    destruct (install_all b pkgs 0 {| s_fs := init; s_if := [] |} [] pkgs) as [[s1 all]|e s1]; [discriminate|].
+    inv_ok E. apply P; [|reflexivity].
+    intros me h Hme Hh. apply Hp. unfold all_hdrs. apply in_flat_map. exists me. split; assumption. }
+  split; [exact A | apply install_l_conservative; exact A].
+Qed.
